@@ -578,7 +578,8 @@ class CodeGen:
             # a raw 0/1 secret integer carrying a boolean's value
             return "(%s + 0)" % self.ex(e["args"][0])
         if c == "pack_roundtrip":
-            return "(PackIntMod(%d).unpack(PackIntMod(%d).pack(%s), 0) + __zero__)" % (e["m"], e["m"], self.ex(e["args"][0]))
+            # (the packer is a schema object built once at the top of the program, see generate())
+            return "(_pkm%d.unpack(_pkm%d.pack(%s), 0) + __zero__)" % (e["m"], e["m"], self.ex(e["args"][0]))
         if c == "if_else_method":
             a = [self.ex(x) for x in e["args"]]
             if e.get("raw"):
@@ -680,7 +681,11 @@ class CodeGen:
         self.step({"kind": "assert", "desc": {"op": "assert_" + k}})
 
     def st_val(self, s):
-        src = "%s.val()" % self.ex(s["a"])
+        if self.mode == "native":
+            src = "%s.val()" % self.ex(s["a"])
+        else:
+            # the plain value handed back is looked at too (it must be the opened object's own value)
+            src = "__valret__(_vo := %s, _vo.val())" % self.ex(s["a"])
         self.wrap_try(s, lambda: self.emit(src))
         self.step({"kind": "val"})
 
@@ -923,6 +928,11 @@ class CodeGen:
         "exit_in_guard": ["guarded(PrivVal(1))(lambda: sys.exit({arg}))()"],
         # worker / supervisor: the rest of the script runs in a forked child that ends normally; the parent only waits
         # and leaves through os._exit with the child's status
+        # the script ends (successfully or not) while a block of the block API is still open
+        "exit_in_open_block": ["_ = BranchingValues()", "_.x = PrivVal(1)", "if _if(_.x == 1):", "    _.x = _.x + 1",
+                               "    sys.exit({arg})"],
+        "end_in_open_loop": ["_ = BranchingValues()", "_.x = PrivVal(2)", "for _i in _range(_.x, max=3):",
+                             "    _.x = _.x + _i", "    if _i == 1: sys.exit({arg})"],
         "fork_worker": ["_pid = os.fork()", "if _pid:", "    os._exit(os.waitstatus_to_exitcode(os.waitpid(_pid, 0)[1]))"],
     }
 
@@ -958,6 +968,10 @@ class CodeGen:
         """Expression over tracked variables, I variables and constants (both modes)."""
         if "tv" in e:
             return self.tv(e["tv"]) + "".join("[%d]" % i for i in e.get("path", []))
+        if "list" in e and e.get("array"):
+            # the same nested literal as an Array of Arrays (a matrix kept in a block variable)
+            return "Array([%s])" % ", ".join(self.bx(dict(x, array=True)) if isinstance(x, dict) and "list" in x
+                                            else self.bx(x) for x in e["list"])
         if "list" in e:
             return "[%s]" % ", ".join(self.bx(x) for x in e["list"])
         if "ext" in e:
@@ -1155,6 +1169,8 @@ class CodeGen:
         self.emit("def _f%d(%s):" % (n, params))
         self.ind += 1
         self.emit("_l = __flat__([%s])" % params)
+        if s.get("log"):
+            self.emit("_log = 'call %r %s' % (_l, [str(_x) for _x in _l])")      # a log line about the arguments
         self.emit("return %s" % self.struct_src(s["ret"], self.snark_leaf_ret))
         self.ind -= 1
         args = ", ".join(self.struct_src(a, self.snark_leaf_arg) for a in s["args"])
@@ -1173,7 +1189,7 @@ class CodeGen:
         self.step({"kind": "snark_call", "desc": {"op": "snark_call"}})
 
     # -- qaptools sub-circuits (C12) -----------------------------------------------------------
-    SUBQAP_RET = {0: 1, 1: 1, 2: 2, 3: 1, 4: 1, 5: 1, 6: 2, 7: 0, 8: 1, 9: 1, 10: 2, 11: 1}
+    SUBQAP_RET = {0: 1, 1: 1, 2: 2, 3: 1, 4: 1, 5: 1, 6: 2, 7: 0, 8: 1, 9: 1, 10: 2, 11: 1, 12: 0}
 
     def subqap_defs(self):
         for k, f in enumerate(self.plan.get("subqaps", [])):
@@ -1213,6 +1229,10 @@ class CodeGen:
             elif t == 10:
                 # a boolean-typed and an integer result
                 self.emit("return [(%s == %s), %s * %s]" % (a0, a1, a0, a1))
+            elif t == 12:
+                # a procedure: checks its (secret) arguments, hands nothing back
+                self.emit("(%s * %s - %s * %s).assert_zero()" % (a0, a1, a1, a0))
+                self.emit("return None")
             elif t == 11:
                 # the body checks its arguments and may raise (the caller catches it and goes on)
                 self.emit("%s.assert_lt(%s)" % (a0, a1))
@@ -1352,6 +1372,8 @@ class CodeGen:
                 nm = self.new_var(t)
                 self.emit("%s = %s" % (nm, ctor))
                 self.origin[nm] = {"op": "input", "kind": "priv", "t": t}
+        for m in sorted(_pack_moduli(self.plan["body"])):
+            self.emit("_pkm%d = PackIntMod(%d)" % (m, m))
         self.step({"kind": "inputs"})
         for s in self.plan["body"]:
             self.st(s)
@@ -1366,6 +1388,19 @@ class CodeGen:
             self.emit("_prog(__inputs__)")
             self.emit("_prog(__alt__)")
         return "\n".join(self.lines) + "\n"
+
+
+def _pack_moduli(x, out=None):
+    out = set() if out is None else out
+    if isinstance(x, dict):
+        if x.get("call") == "pack_roundtrip":
+            out.add(x["m"])
+        for v in x.values():
+            _pack_moduli(v, out)
+    elif isinstance(x, list):
+        for v in x:
+            _pack_moduli(v, out)
+    return out
 
 
 def plan_digest(plan):
